@@ -101,11 +101,61 @@ def formatAttrName (anchor : Bool) (s : Seg) : Text := formatAttrNameWith anchor
 def formatNPath (anchor : Bool) (p : Text) : Except Err (List Text) :=
   (parseNPath anchor p).map (·.map (formatAttrName anchor))
 
+/-! ### how lookups compare name tokens (`expressions/binding.py`) -/
+
+/-- `_NIX_IDENTIFIER_RE` : `[A-Za-z_][A-Za-z0-9_'\-]*\Z` (the bare names Nix accepts: the NPath
+    identifier class plus `-` after the first character) -/
+def nameIdentRest (c : Char) : Bool := identRest c || c = '-'
+def nameIdent : Text → Bool
+  | [] => false
+  | c :: cs => identStart c && cs.all nameIdentRest
+
+/-- `_STRING_ESCAPES.get(following, following)` -/
+def nameUnesc (c : Char) : Char :=
+  if c = 'n' then '\n' else if c = 'r' then '\r' else if c = 't' then '\t' else c
+
+/-- the `while index < len(body)` loop of `_decode_attr_name`; `none` is the early `return None`
+    (interpolation, unescaped quote, dangling backslash) -/
+def decodeNameBody : Text → Option Text
+  | [] => some []
+  | c :: rest =>
+    if c = '\\' then
+      match rest with
+      | [] => none
+      | e :: more => (decodeNameBody more).map (nameUnesc e :: ·)
+    else if c = '"' then none
+    else
+      match rest with
+      | [] => some [c]
+      | f :: more =>
+        if c = '$' ∧ f ≠ '"' ∧ f ≠ '\\' then
+          if f = '{' then none else (decodeNameBody more).map (fun r => c :: f :: r)
+        else (decodeNameBody (f :: more)).map (c :: ·)
+termination_by s => s.length
+
+/-- `_decode_attr_name(token)`: the name Nix reads from a name token, `none` when it is not static
+    or not a single name token -/
+def decodeAttrName (tok : Text) : Option Text :=
+  match tok with
+  | '"' :: rest =>
+      if rest.getLast? = some '"' then decodeNameBody rest.dropLast
+      else if nameIdent tok then some tok else none
+  | _ => if nameIdent tok then some tok else none
+
+/-- `_same_attr_name(left, right)` (both arguments are strings here) -/
+def sameName (a b : Text) : Bool :=
+  a == b || (match decodeAttrName a with
+    | some n => decodeAttrName b == some n
+    | none => false)
+
 /-- `_segment_name` -/
 def segmentName (s : Text) : Text :=
-  match s with
-  | '"' :: rest => if s.getLast? = some '"' then rest.dropLast else s
-  | _ => s
+  match decodeAttrName s with
+  | some n => n
+  | none =>
+    match s with
+    | '"' :: rest => if s.getLast? = some '"' then rest.dropLast else s
+    | _ => s
 
 /-- SPEC. How Nix reads an attribute-name token as written in a file: a bare identifier
     (Nix identifiers additionally allow `-` after the first character) or a `"…"` string without
